@@ -22,7 +22,7 @@ pub fn scalars(seed: u64, fillers: usize) -> Vec<(String, U256)> {
 }
 pub fn run(ctx: &Ctx) {
     let curve = Curve::new();
-    let sc = scalars(ctx.seed, if ctx.quick() { 32 } else { 512 });
+    let sc = scalars(ctx.seed, if ctx.quick() { 32 } else { 20_000 });
     ctx.sweep("valid-scalars", "boundary scalars (1..3, n-3..n-1, (n+-1)/2, 2^k and 2^k-1 for k=1..255, patterns) and seed-rotated fillers", sc.len() as u64, |i| {
         let (class, d) = &sc[i as usize]; let secret = d.to_be();
         let pt = curve.mul_g(d).unwrap(); let addr = eth::address_of_point(&pt);
